@@ -30,6 +30,8 @@ func vConc(x int) int                                 { panic("intrinsic") }
 func vConcBool(x bool) bool                           { panic("intrinsic") }
 func vEngine() bool                                   { panic("intrinsic") }
 func vPrune()                                         { panic("intrinsic") }
+func vStepBudget(n int, class, msg string)             { panic("intrinsic") }
+func vStepBudgetEnd()                                 { panic("intrinsic") }
 func vSteps() int                                     { panic("intrinsic") }
 func vSinkText(p interface{}) string                  { panic("intrinsic") }
 
